@@ -10,6 +10,12 @@ Theorem C01_active_equations : forall k i, In i (active k) <-> (i < neq k)%nat /
 Proof. exact active_spec. Qed.
 Print Assumptions C01_active_equations.
 
+(* ... and the compression keeps them in their original order, each once: reduced index a < b maps to full index i_a < i_b *)
+Theorem C01_active_order : forall k a b, (a < b)%nat -> (b < nred k)%nat ->
+  (nth a (active k) O < nth b (active k) O)%nat.
+Proof. exact active_increasing. Qed.
+Print Assumptions C01_active_order.
+
 Theorem C01_data_equation_flag : forall k iech ivar,
   (iech < nech k)%nat -> (ivar < k_nvar k)%nat ->
   flag k (iech + ivar * nech k) =
